@@ -1,5 +1,5 @@
 """Property -> rules table."""
-import lattice_rules, agg_rules
+import lattice_rules, agg_rules, lib_rules
 
 
 def run_C16(ctx, rep):
@@ -13,7 +13,44 @@ def run_C17(ctx, rep):
     rep.floor('L11.empty', 7, 'aggregators')
 
 
+def run_C19(ctx, rep):
+    lib_rules.check_L1(ctx, rep)
+    lib_rules.classify_writers(ctx, rep)
+    lib_rules.check_L4(ctx, rep)
+    lib_rules.check_L6(ctx, rep)
+    lib_rules.check_L7(ctx, rep)
+    lib_rules.check_L13(ctx, rep)
+
+
+def run_C20(ctx, rep):
+    lib_rules.check_L8(ctx, rep)
+    agg_rules.check_L9(ctx, rep, ['c_rel_no_index'])
+    rep.floor('L9', 2, 'shard indexing in CRelNoIndex')
+
+
 PROPS = {
+    'C19': {
+        'run': run_C19, 'corpus': False, 'level': 'other',
+        'explanation': 'protocol obligations of the index building blocks of `ascent`, decided on the typed HIR: L1 insert-if-absent '
+                       'is one entry operation (occupied: false, no write; vacant: insert + true) under the shard write lock for the '
+                       '&self variants; L2/L3 every index_insert keeps its value on every path (writer classification derived); '
+                       'L4 every move_index_contents drains `from` completely into `to` on every path, size swaps exchange from/to '
+                       'themselves, shard-wise zips are guarded by an equality assertion; default merge = (total+=delta, delta=new, '
+                       'new=empty) by abstract interpretation over the three set variables; L6 freeze/unfreeze carry the payload over; '
+                       'L7 the combined view reads both parts. NOT decided: multimap behaviour of HashMap/DashMap/hashbrown themselves.',
+        'assumptions': ['std / hashbrown / dashmap containers behave as maps and sets', 'rayon for_each visits every zipped pair'],
+        'rule_text': 'one instance = one obligation of one implementation (entry arm, drain loop, swap, freeze arm, delegated part)',
+    },
+    'C20': {
+        'run': run_C20, 'corpus': False, 'level': 'other',
+        'explanation': 'L8: inventory of all statics of ascent / ascent_base / ascent-byods-rels; values of mutable statics never flow '
+                       'into logic (only `STATIC += ..` stores), no interior-mutable process-wide cell except the once-initialised '
+                       'shard amount, which every DashMap construction uses (so shard-wise merges cannot depend on the pool current at '
+                       'construction time); L9: the per-thread shard of CRelNoIndex is reduced modulo the instance\'s own shard vector. '
+                       'Decides isolation of process-wide state and pool-independent indexing, NOT equality of results across pools.',
+        'assumptions': ['rayon::current_thread_index() / current_num_threads() are only consulted at the checked sites'],
+        'rule_text': 'one instance = one static, one use of a mutable static, one DashMap construction, one shard indexing',
+    },
     'C17': {
         'run': run_C17, 'corpus': False, 'level': 'other',
         'explanation': 'L9: every panicking indexing operation in ascent::aggregators has an index bounded by the indexed vector '
